@@ -413,6 +413,41 @@ var c08Stats = struct {
 	dontCare, rejected, gridCells, gridDC, gridRejected, gridCompared int
 }{}
 
+// c08HasFallbackShape: some condition lists a span-level name before a root.-prefixed one, the root carries
+// that root field, and at least one span lacks the span-level field while a later span has it.
+func c08HasFallbackShape(rules []c08Rule, tr c811Trace) bool {
+	root := tr.rootIdx()
+	if root < 0 {
+		return false
+	}
+	for _, r := range rules {
+		for _, c := range r.Conds {
+			for i, n := range c.Fields {
+				if !strings.HasPrefix(n, "root.") {
+					continue
+				}
+				if _, ok := tr.Spans[root][strings.TrimPrefix(n, "root.")]; !ok {
+					continue
+				}
+				for _, pn := range c.Fields[:i] {
+					if strings.HasPrefix(pn, "root.") {
+						continue
+					}
+					lacking := false
+					for _, sp := range tr.Spans {
+						if _, ok := sp[pn]; !ok {
+							lacking = true
+						} else if lacking {
+							return true
+						}
+					}
+				}
+			}
+		}
+	}
+	return false
+}
+
 func c08IsNT(rules []c08Rule, tr c811Trace, expIdx int) bool {
 	if len(rules) >= 2 && expIdx >= 1 && expIdx < len(rules) {
 		return true
@@ -464,6 +499,9 @@ func execC08(c c08Case) vkit.Result {
 	sutIdx := c08MatchedIdx(o.reason, names)
 	expIdx, dcAt := c08FirstMatch(c.Rules, c.Trace)
 	res.NonTrivial = c08IsNT(c.Rules, c.Trace, expIdx)
+	if c08HasFallbackShape(c.Rules, c.Trace) {
+		res.Class("shape:fields-spanlevel-before-root/root-has-it/some-span-lacks-spanlevel")
+	}
 
 	if dcAt >= 0 {
 		c08Stats.Lock()
@@ -875,7 +913,96 @@ func genC08Trace(t *rapid.T) c811Trace {
 	return tr
 }
 
+// genC08Fallback is aimed at `Fields` lists that mix span-level and root.-prefixed names ("first field
+// that exists on any given span is used"): which name a span resolves to differs from span to span, the
+// root carries the root.-field, several spans lack the span-level field and the spans that satisfy the
+// condition sit anywhere in arrival order. Span values are drawn from {a value equal to the condition's
+// Value, another value of the same type, absent}.
+func genC08Fallback(t *rapid.T) c08Case {
+	names := []string{"a", "b", "c"}
+	p := rapid.SampledFrom(names).Draw(t, "p")
+	q := rapid.SampledFrom(names).Draw(t, "q")
+	p2 := rapid.SampledFrom(names).Draw(t, "p2")
+	var fields []string
+	switch rapid.IntRange(0, 5).Draw(t, "fieldshape") {
+	case 0, 1, 2:
+		fields = []string{p, "root." + q}
+	case 3:
+		fields = []string{"root." + q, p}
+	case 4:
+		fields = []string{p, "root." + q, p2}
+	default:
+		fields = []string{p, p2, "root." + q}
+	}
+	cond := c08Cond{Fields: fields}
+	cond.Op = rapid.SampledFrom([]string{"=", "=", "!=", ">", ">=", "<", "<=", "contains", "starts-with", "does-not-contain", "in", "not-in", "matches", "exists"}).Draw(t, "op")
+	cond.Datatype = rapid.SampledFrom([]string{"", "", "string", "int", "float"}).Draw(t, "dt")
+	if cond.Op != "exists" {
+		cond.Value = genC08TypedValue(t, cond.Op, cond.Datatype)
+	}
+	mv, nv := c811S("abc"), c811S("q")
+	if cond.Value != nil {
+		v := *cond.Value
+		if v.K == "l" && len(v.L) > 0 {
+			v = v.L[rapid.IntRange(0, len(v.L)-1).Draw(t, "elem")]
+		}
+		switch v.K {
+		case "i":
+			mv, nv = c811I(v.I), c811I(v.I+7)
+		case "f":
+			mv, nv = c811F(v.F), c811F(v.F+7.25)
+		case "b":
+			mv, nv = c811B(v.B), c811B(!v.B)
+		case "s":
+			mv = c811S(v.S)
+			if cond.Op == "matches" {
+				mv = c811S(rapid.SampledFrom([]string{"abc", "200", "b", "ab"}).Draw(t, "mvre"))
+			}
+		}
+	}
+	pick := func(label string, absentWeight int) (c811Val, bool) {
+		switch k := rapid.IntRange(0, 3+absentWeight).Draw(t, label); {
+		case k == 0 || k == 1:
+			return mv, true
+		case k == 2 || k == 3:
+			return nv, true
+		}
+		return c811Val{}, false
+	}
+	n := rapid.IntRange(2, 5).Draw(t, "nspans")
+	tr := c811Trace{Root: rapid.IntRange(-1, n-1).Draw(t, "root")}
+	if tr.Root < 0 && rapid.Bool().Draw(t, "rootanyway") {
+		tr.Root = rapid.IntRange(0, n-1).Draw(t, "root2")
+	}
+	for i := 0; i < n; i++ {
+		sp := c811Span{}
+		for _, f := range names {
+			w := 3 // span-level fields are often missing
+			if i == tr.Root && f == q {
+				w = 0 // the root usually carries the root.-field
+			}
+			if f != p && f != q && f != p2 {
+				continue
+			}
+			if v, ok := pick(fmt.Sprintf("v%d%s", i, f), w); ok {
+				sp[f] = v
+			}
+		}
+		tr.Spans = append(tr.Spans, sp)
+	}
+	rule := c08Rule{Scope: rapid.SampledFrom([]string{"", "trace", "span"}).Draw(t, "scope"), Conds: []c08Cond{cond}, Drop: true}
+	if rapid.IntRange(0, 3).Draw(t, "second") == 0 {
+		rule.Conds = append(rule.Conds, genC08Cond(t))
+	}
+	c := c08Case{Rules: []c08Rule{rule}, Trace: tr}
+	c.Rules = append(c.Rules, rapid.SliceOfN(rapid.Custom(genC08Rule), 0, 2).Draw(t, "more")...)
+	return c
+}
+
 func genC08(t *rapid.T) c08Case {
+	if rapid.IntRange(0, 4).Draw(t, "aimed") == 3 {
+		return genC08Fallback(t)
+	}
 	c := c08Case{}
 	c.Rules = rapid.SliceOfN(rapid.Custom(genC08Rule), 1, 5).Draw(t, "rules")
 	c.Trace = genC08Trace(t)
@@ -886,7 +1013,7 @@ func genC08(t *rapid.T) c08Case {
 func TestC08(t *testing.T) {
 	vkit.Run(t, vkit.Spec[c08Case]{
 		ID:   "C08",
-		Rule: "rapid-generated rule lists (1-5 rules; scope \"\"/trace/span; 0-3 conditions over fields {a,b,c,root.a,root.b}, Field or Fields lists, ?.NUM_DESCENDANTS, has-root-span; all 15 operators x Datatype {\"\",string,int,float,bool} x Value {int,float,bool,string,numeric string,list,omitted}; outcome Drop / SampleRate N / downstream DynamicSampler and the documented precedence combinations) written as a rules file, loaded and validated like refinery does (yaml.v3 + ValidateRules), against traces of 1-5 spans with/without root whose fields are absent or carry string/int64/float64/bool/nil. Oracle: independent three-valued interpreter of rules.md + rules_conditions.md; first matching rule, rate, keep (when not a coin), delegation compared with the downstream sampler alone; a disagreement is attributed to single conditions by probing one-condition samplers. The replay tier runs the exhaustive grid (15 operators x 5 datatypes x 22 values x 2 scopes x 19 span values on one-span traces). Non-trivial: >=2 rules and the documented match is not the first rule, or a condition on a field absent from some/all spans, or span scope with >=2 conditions. Distinct = distinct case JSON.",
+		Rule: "rapid-generated rule lists (1-5 rules; scope \"\"/trace/span; 0-3 conditions over fields {a,b,c,root.a,root.b}, Field or Fields lists, ?.NUM_DESCENDANTS, has-root-span; all 15 operators x Datatype {\"\",string,int,float,bool} x Value {int,float,bool,string,numeric string,list,omitted}; outcome Drop / SampleRate N / downstream DynamicSampler and the documented precedence combinations; 1 case in 5 comes from a sub-generator aimed at Fields lists mixing span-level and root.-prefixed names on multi-span traces with span values drawn from {equal to Value, another value, absent}) written as a rules file, loaded and validated like refinery does (yaml.v3 + ValidateRules), against traces of 1-5 spans with/without root whose fields are absent or carry string/int64/float64/bool/nil. Oracle: independent three-valued interpreter of rules.md + rules_conditions.md; first matching rule, rate, keep (when not a coin), delegation compared with the downstream sampler alone; a disagreement is attributed to single conditions by probing one-condition samplers. The replay tier runs the exhaustive grid (15 operators x 5 datatypes x 22 values x 2 scopes x 19 span values on one-span traces). Non-trivial: >=2 rules and the documented match is not the first rule, or a condition on a field absent from some/all spans, or span scope with >=2 conditions. Distinct = distinct case JSON.",
 		Assumptions: []string{
 			"don't-care (not asserted, counted): ordering operators with Datatype bool; bool spellings other than true/false/1/0; integral floats or nil coerced to text; negative fractions and numeric-looking strings under Datatype int; untyped comparison of a number with a fractional, string or bool Value; in/not-in with a scalar Value, Datatype bool, a list of another type than the span value (untyped) or an unconvertible span value under not-in; Value that does not convert to the Datatype; SampleRate 0; not-exists on a root.-prefixed field when the trace has no root span (rules.md and the property statement contradict each other)",
 			"a rule whose documented match status is don't-care ends the comparison for that case; rules before it must still not match",
